@@ -1152,6 +1152,137 @@ def rule_r4_depth(ctx: Ctx) -> None:
     ctx.check(True, "_serializable.*, _data_schema_builder, _data_type_builder", "%d loops scanned" % n_loops, "scan completed", "pydsdl/_serializable", nontrivial=False)
 
 
+def rule_r6_fresh_exceptions(ctx: Ctx) -> None:
+    """`whose path names the offending file`: the location is stamped onto the exception *object* on its way out, and only where
+    none is set yet (set_error_location_if_unknown).  An exception object that outlives one reading - kept in a memo, a table,
+    an attribute, a default argument - carries the location of the first definition it was raised for into every later one.
+    Every `raise` of the package must therefore raise an object made for this occasion: constructed at the statement, the
+    exception being handled, or a local bound to one of those - where a local bound to the result of a function of the
+    package counts if that function makes a new object on every call (returns only constructions) and is not memoised."""
+    repo = ctx.repo
+    ctx.rule("C13.R6", "every raised exception object is made for the occasion (constructed at the raise, the exception being handled, or the result of an un-memoised function that constructs it): none is taken from a memo, a table or an attribute, where it would keep the path and line of the first definition it was raised for", min_instances=150)
+    err = ctx.cls("_error.Error")
+    MEMO = ("lru_cache", "cache", "cached", "memoize", "memoized", "cached_property")
+
+    def is_memoised(fn: Any) -> bool:
+        for d in fn.node.decorator_list:
+            nm = (dotted(d.func) if isinstance(d, ast.Call) else dotted(d)) or ""
+            if nm.split(".")[-1] in MEMO:
+                return True
+        # wrapped by assignment at module level: f = lru_cache(...)(f) / g = cache(f)
+        for st in fn.module.tree.body:
+            if isinstance(st, (ast.Assign, ast.AnnAssign)):
+                for n in ast.walk(st):
+                    if isinstance(n, ast.Call) and (dotted(n.func) or "").split(".")[-1] in MEMO or (isinstance(n, ast.Call) and isinstance(n.func, ast.Call) and (dotted(n.func.func) or "").split(".")[-1] in MEMO):
+                        if any(isinstance(a, ast.Name) and a.id == fn.name for a in n.args):
+                            return True
+        return False
+
+    def provenance(fn: Any, e: ast.AST, depth: int = 0) -> Optional[str]:
+        """None if the value of e is made for the occasion, else why not"""
+        if e is None:
+            return None
+        if isinstance(e, ast.Call):
+            try:
+                r = repo.resolve_expr(fn.module, e.func, fn.cls)
+            except Exception:
+                r = None
+            if isinstance(r, ClassInfo) or isinstance(r, External):
+                return None  # a construction
+            if isinstance(r, FuncInfo):
+                if is_memoised(r):
+                    return "the result of %s, which is memoised: the same object is handed out again" % r.short
+                if depth > 4:
+                    return None
+                for ret in [n for n in walk_no_nested(r.node) if isinstance(n, ast.Return) and n.value is not None]:
+                    if isinstance(ret.value, ast.Constant) and ret.value.value is None:
+                        continue
+                    why = provenance(r, ret.value, depth + 1)
+                    if why:
+                        return "the result of %s: %s" % (r.short, why)
+                return None
+            if isinstance(e.func, ast.Attribute) and e.func.attr in ("with_traceback",):
+                return provenance(fn, e.func.value, depth)
+            if isinstance(e.func, ast.Name) and e.func.id in ("type",):
+                return None
+            # a method call on a value (self._x.get(...), table[k](...)): resolved by name over the package
+            if isinstance(e.func, ast.Attribute):
+                cands = [f for f in repo.all_functions().values() if f.name == e.func.attr and f.cls is not None]
+                if cands:
+                    for c in cands:
+                        if is_memoised(c):
+                            return "the result of %s, which is memoised" % c.short
+                    return None
+                return "the result of %s (a container / foreign call)" % norm(e.func)
+            return None
+        if isinstance(e, ast.Name):
+            # bindings in this function (and the enclosing ones for closures)
+            scope = fn
+            while scope is not None:
+                binds: List[ast.AST] = []
+                handled = False
+                for n in ast.walk(scope.node):
+                    if isinstance(n, ast.ExceptHandler) and n.name == e.id:
+                        handled = True
+                    elif isinstance(n, ast.Assign) and any(isinstance(t, ast.Name) and t.id == e.id for t in n.targets):
+                        binds.append(n.value)
+                    elif isinstance(n, ast.AnnAssign) and isinstance(n.target, ast.Name) and n.target.id == e.id and n.value is not None:
+                        binds.append(n.value)
+                    elif isinstance(n, ast.NamedExpr) and n.target.id == e.id:
+                        binds.append(n.value)
+                    elif isinstance(n, (ast.For, ast.comprehension)) and any(isinstance(t, ast.Name) and t.id == e.id for t in ast.walk(n.target)):
+                        return "an element of %s" % norm(n.iter)[:50]
+                    elif isinstance(n, ast.withitem) and n.optional_vars is not None and any(isinstance(t, ast.Name) and t.id == e.id for t in ast.walk(n.optional_vars)):
+                        binds.append(n.context_expr)
+                if handled and not binds:
+                    return None
+                if binds:
+                    for b in binds:
+                        why = provenance(scope, b, depth + 1)
+                        if why:
+                            return why
+                    return None
+                if e.id in scope.params:
+                    return None if depth else "a parameter (%s): whoever calls decides what object it is" % e.id
+                scope = scope.parent
+            try:
+                r = repo.resolve_expr(fn.module, e, fn.cls)
+            except Exception:
+                r = None
+            if isinstance(r, (ClassInfo, External)):
+                return None  # `raise NotImplementedError`: the class, instantiated by the statement
+            return "the module-level value %s: one object for every occasion" % e.id
+        if isinstance(e, ast.IfExp):
+            return provenance(fn, e.body, depth) or provenance(fn, e.orelse, depth)
+        if isinstance(e, ast.BoolOp):
+            for v in e.values:
+                why = provenance(fn, v, depth)
+                if why:
+                    return why
+            return None
+        if isinstance(e, (ast.Attribute, ast.Subscript)):
+            try:
+                r = repo.resolve_expr(fn.module, e, fn.cls)
+            except Exception:
+                r = None
+            if isinstance(r, (ClassInfo, External)):
+                return None
+            return "the stored value %s" % norm(e)[:60]
+        return None
+
+    n = 0
+    for fn in repo.all_functions().values():
+        if fn.name.startswith("_unittest") or fn.module.name.split(".")[-1].startswith("_test"):
+            continue
+        for st in walk_no_nested(fn.node):
+            if isinstance(st, ast.Raise) and st.exc is not None:
+                n += 1
+                why = provenance(fn, st.exc)
+                ctx.check(why is None, fn.short, norm(st)[:80], "the raised object is %s - it keeps the location of the first definition it was raised for" % why if why else "made for the occasion", fn.where(st), nontrivial=not isinstance(st.exc, ast.Call))
+    ctx.count(n)
+    _ = err
+
+
 def rule_r5_file_names(ctx: Ctx) -> None:
     """the last clause of the property: arbitrary file names under a namespace directory.  Names that do not parse are R1/R2's
     business (FileNameFormatError).  This rule is about names that parse and *coincide*: two files of one directory may spell
@@ -1215,6 +1346,7 @@ def run(ctx: Ctx) -> None:
     repo = ctx.repo
     ctx.attempt(rule_r4_depth, ctx)
     ctx.attempt(rule_r5_file_names, ctx)
+    ctx.attempt(rule_r6_fresh_exceptions, ctx)
     g = CallGraph(repo)
     ctx.analysed["callgraph"] = g.stats()
     kinds = Kinds(ctx, g)
